@@ -1,5 +1,5 @@
 (* C07/Run.v — evaluation of the model and the spec on harness cases. *)
-From Relic Require Import Base.Prelude Base.Val Generated.C07_gen C07.Model.
+From Relic Require Import Base.Prelude Base.Val Generated.C07_gen C07.Model C07.History.
 
 Definition vpub (v : val) : pubk :=
   let alg := vz (vnth 0 v) in
@@ -108,6 +108,47 @@ Definition run_flow (v : val) : val :=
       end
   end.
 
+(* [6 cfg expiry keyfiles x509files pgpfiles events]: a history inside one process.
+   cfg entries [name alias token keyfile x509 pgp]; keyfiles [file status [kid pub] blobsrc]; x509files [file status src];
+   pgpfiles [file status ents]; events [0 file status [kid pub] blobsrc] | [1 file status src] | [2 file status ents]
+   | [3 name fresh want_len ids_equal certtypes kind site_or_class msg] (kind 0 X.509 site id, 1 PGP argument class).
+   Output per request: [status leaf_der chain_ders signing_key_id pgp_entity_id spec_ok] *)
+Definition vpriv (v : val) : priv := mkPriv (vz (vnth 0 v)) (vpub (vnth 1 v)).
+Definition vkeyfile (st : Z) (k blob : val) : result (priv * certsrc) :=
+  if st =? 0 then Ok (vpriv k, vsrc blob) else Err st.
+Definition vx509file (st : Z) (src : val) : result certsrc := if st =? 0 then Ok (vsrc src) else Err st.
+Definition vpgpfile (st : Z) (ents : val) : result (list entity) := if st =? 0 then Ok (map vent (vl ents)) else Err st.
+Fixpoint vfiles {A} (mk : val -> A) (dflt : A) (l : list val) : Z -> A :=
+  match l with
+  | [] => fun _ => dflt
+  | v :: r => upd (vfiles mk dflt r) (vz (vnth 0 v)) (mk v)
+  end.
+Definition vsigner (kind id : Z) : signer :=
+  if kind =? 0 then
+    match find (fun st => st_id st =? id) sites with Some st => SgX509 st | None => SgX509 (mkSite id GNone 0 0 0) end
+  else SgPgp id.
+Definition vevent (v : val) : event :=
+  let k := vz (vnth 0 v) in
+  if k =? 0 then EKey (vz (vnth 1 v)) (vkeyfile (vz (vnth 2 v)) (vnth 3 v) (vnth 4 v))
+  else if k =? 1 then EX509 (vz (vnth 1 v)) (vx509file (vz (vnth 2 v)) (vnth 3 v))
+  else if k =? 2 then EPgp (vz (vnth 1 v)) (vpgpfile (vz (vnth 2 v)) (vnth 3 v))
+  else EReq (mkReq (vz (vnth 1 v)) (vbool (vnth 2 v)) (vz (vnth 3 v)) (vbool (vnth 4 v)) (vz (vnth 5 v))
+                   (vsigner (vz (vnth 6 v)) (vz (vnth 7 v))) (vz (vnth 8 v))).
+Definition hist_out (t : world * hcache * request * result outv) : val :=
+  let q := snd (fst t) in
+  match snd t with
+  | Ok (OX509 e) => VL [VZ 0; VZ (c_der (em_leaf e)); ders (em_chain e); VZ (k_id (s_key (em_sig e))); VZ (-1);
+                        of_bool (spec_output_ok (q_msg q) (OX509 e))]
+  | Ok (OPgp en sg) => VL [VZ 0; VZ (-1); VL []; VZ (k_id (s_key sg)); VZ (en_id en); of_bool (spec_output_ok (q_msg q) (OPgp en sg))]
+  | r => VL [VZ (status r); VZ (-1); VL []; VZ (-1); VZ (-1); VZ 1]
+  end.
+Definition run_hist (v : val) : val :=
+  let c := map vkc (vl (vnth 1 v)) in
+  let w := mkWorld (vfiles (fun x => vkeyfile (vz (vnth 1 x)) (vnth 2 x) (vnth 3 x)) (Err E_READ) (vl (vnth 3 v)))
+                   (vfiles (fun x => vx509file (vz (vnth 1 x)) (vnth 2 x)) (Err E_READ) (vl (vnth 4 v)))
+                   (vfiles (fun x => vpgpfile (vz (vnth 1 x)) (vnth 2 x)) (Err E_READ) (vl (vnth 5 v))) in
+  VL (map hist_out (History.run c (vz (vnth 2 v)) w [] (map vevent (vl (vnth 6 v))))).
+
 Definition run (v : val) : val :=
   let op := vz (vnth 0 v) in
   if op =? 0 then run_same v
@@ -116,4 +157,5 @@ Definition run (v : val) : val :=
   else if op =? 3 then run_guard v
   else if op =? 4 then run_lookup v
   else if op =? 5 then run_flow v
+  else if op =? 6 then run_hist v
   else VL [].
